@@ -58,6 +58,8 @@ def run(ctx):
     ctx.do(rule_no_hidden_state, "C11.history-independence")
     from .pitfalls import rule_loops_not_cut_short
     ctx.do(rule_loops_not_cut_short, "C11.loops-complete")
+    from .pitfalls import rule_definite_assignment
+    ctx.do(rule_definite_assignment, "C11.definite-assignment")
 
 
 def _open_mode(call):
